@@ -463,4 +463,134 @@ theorem C31_accesses_of_resolved (rs : Regions) (s : Signature) (args : List Arg
         cases hr <;> simp [Resolved.region, Resolved.written, Arg.region, h1, h2]
   · cases h'
 
+/-! ## Applicable error kinds (robustness to the order in which a doubly-wrong argument is diagnosed) -/
+
+/-- the error the model reports is always one that applies -/
+theorem resolve_error_mem (rs : Regions) (p : ExtParam) (a : Arg) (e : ArgErr)
+    (h : resolve rs p a = .error e) : e ∈ slotErrs rs p a := by
+  cases a with
+  | identifier n =>
+    cases hty : p.ty <;> cases hg : rs.get n <;>
+      simp [resolve, resolveMemRef, slotErrs, hty, hg] at h ⊢ <;> (first | (subst h; simp) | (split at h <;> simp_all) | simp_all)
+  | memRef n i =>
+    cases hty : p.ty <;> cases hg : rs.get n <;>
+      simp [resolve, resolveMemRef, slotErrs, hty, hg] at h ⊢ <;> (first | (subst h; simp) | (split at h <;> simp_all) | simp_all)
+  | immediate x =>
+    cases hty : p.ty <;> cases hm : p.mutable <;>
+      simp [resolve, slotErrs, hty, hm, ParamType.isVector] at h ⊢ <;> (first | (subst h; simp) | simp_all)
+
+/-- some error applies exactly when the model rejects the argument -/
+theorem slotErrs_ne_nil_iff (rs : Regions) (p : ExtParam) (a : Arg) :
+    slotErrs rs p a ≠ [] ↔ ∃ e, resolve rs p a = .error e := by
+  cases a with
+  | identifier n =>
+    cases hty : p.ty <;> cases hg : rs.get n <;>
+      simp [resolve, resolveMemRef, slotErrs, hty, hg] <;> (try (split <;> simp_all))
+  | memRef n i =>
+    cases hty : p.ty <;> cases hg : rs.get n <;>
+      simp [resolve, resolveMemRef, slotErrs, hty, hg] <;> (try (split <;> simp_all))
+  | immediate x =>
+    cases hty : p.ty <;> cases hm : p.mutable <;>
+      simp [resolve, slotErrs, hty, hm, ParamType.isVector]
+
+theorem resolveReturn_error_mem (rs : Regions) (t : ScalarType) (a : Arg) (e : ArgErr)
+    (h : resolveReturn rs t a = .error e) : e ∈ returnErrs rs t a := by
+  cases a with
+  | identifier n =>
+    cases hg : rs.get n <;> simp [resolveReturn, returnErrs, hg] at h ⊢ <;> (first | (subst h; simp) | (split at h <;> simp_all) | simp_all)
+  | memRef n i =>
+    cases hg : rs.get n <;> simp [resolveReturn, returnErrs, hg] at h ⊢ <;> (first | (subst h; simp) | (split at h <;> simp_all) | simp_all)
+  | immediate x => simp [resolveReturn, returnErrs] at h ⊢; exact h.symm
+
+theorem returnErrs_ne_nil_iff (rs : Regions) (t : ScalarType) (a : Arg) :
+    returnErrs rs t a ≠ [] ↔ ∃ e, resolveReturn rs t a = .error e := by
+  cases a with
+  | identifier n =>
+    cases hg : rs.get n <;> simp [resolveReturn, returnErrs, hg] <;> (try (split <;> simp_all))
+  | memRef n i =>
+    cases hg : rs.get n <;> simp [resolveReturn, returnErrs, hg] <;> (try (split <;> simp_all))
+  | immediate x => simp [resolveReturn, returnErrs]
+
+theorem entryCheck_error_mem (isUser : String → Bool) (n : String) (p : ExtPragma) (e : MapErr)
+    (h : entryCheck isUser n p = .error e) : e ∈ entryErrs isUser n p := by
+  unfold entryCheck at h
+  unfold entryErrs
+  by_cases hu : isUser n = true
+  · simp [hu] at h ⊢; simp [h]
+  · simp [hu] at h ⊢; left; exact h.symm
+
+theorem entryErrs_ne_nil_iff (isUser : String → Bool) (n : String) (p : ExtPragma) :
+    entryErrs isUser n p ≠ [] ↔ ∃ e, entryCheck isUser n p = .error e := by
+  unfold entryCheck entryErrs
+  by_cases hu : isUser n = true <;> cases hs : sigOfPragma isUser p <;> simp [hu]
+
+/-- `convertMap` applies `entryCheck` to each named entry -/
+theorem convertMap_cons_named (isUser : String → Bool) (n : String) (p : ExtPragma)
+    (rest : List (Option String × ExtPragma)) :
+    convertMap isUser ((some n, p) :: rest) =
+      match entryCheck isUser n p with
+      | .error e => .error (some n, e)
+      | .ok s => match convertMap isUser rest with
+        | .ok l => .ok ((n, s) :: l)
+        | .error e => .error e := by
+  unfold entryCheck
+  by_cases hu : isUser n = true <;> simp [convertMap, hu]
+  cases sigOfPragma isUser p <;> rfl
+
+theorem paramOutcomes_errs (rs : Regions) (i : Nat) (ps : List ExtParam) (as : List Arg)
+    (os : List (Except CallArgErr Resolved)) (h : ParamOutcomes rs i ps as os) :
+    ∀ x ∈ errs os, ∃ j e p a, x = .arg (i + j) e ∧ ps[j]? = some p ∧ as[j]? = some a ∧ e ∈ slotErrs rs p a := by
+  induction h with
+  | nil i => simp [errs]
+  | cons i p ps a as o os ho _ ih =>
+    intro x hx
+    cases ho with
+    | fits r _ =>
+      simp only [errs] at hx
+      obtain ⟨j, e, p', a', rfl, h1, h2, h3⟩ := ih x hx
+      exact ⟨j + 1, e, p', a', by congr 1; omega, by simpa using h1, by simpa using h2, h3⟩
+    | fails e he =>
+      simp only [errs, List.mem_cons] at hx
+      rcases hx with rfl | hx
+      · exact ⟨0, e, p, a, rfl, rfl, rfl, resolve_error_mem rs p a e ((resolve_error_iff rs p a e).mpr he)⟩
+      · obtain ⟨j, e', p', a', rfl, h1, h2, h3⟩ := ih x hx
+        exact ⟨j + 1, e', p', a', by congr 1; omega, by simpa using h1, by simpa using h2, h3⟩
+
+/-- **the model's own outcome is always acceptable**: every error it reports applies at the slot it names -/
+theorem outcomeAccepts_model (rs : Regions) (s : Signature) (args : List Arg) :
+    outcomeAccepts rs s args (resolveToSignature rs s args) (resolveToSignature rs s args) = true := by
+  have hspec := resolveToSignature_spec rs s args
+  generalize resolveToSignature rs s args = o at hspec
+  rcases hspec with ⟨_, rfl⟩ | ⟨_, os, hos, ⟨_, rfl⟩ | ⟨_, rfl⟩⟩
+  · simp [outcomeAccepts]
+  · simp [outcomeAccepts]
+  · simp only [outcomeAccepts, beq_self_eq_true, Bool.true_and, List.all_eq_true]
+    intro mi hmi
+    obtain ⟨m, i⟩ := mi
+    have hmi' : m = i ∧ m ∈ errs os := by
+      have := List.of_mem_zip hmi
+      refine ⟨?_, this.1⟩
+      clear this
+      generalize errs os = l at hmi
+      induction l with
+      | nil => simp at hmi
+      | cons x xs ih => simp at hmi; rcases hmi with ⟨rfl, rfl⟩ | h; rfl; exact ih h
+    obtain ⟨rfl, hm⟩ := hmi'
+    cases hos with
+    | noReturn _ _ hret hp =>
+      obtain ⟨j, e, p, a, rfl, h1, h2, h3⟩ := paramOutcomes_errs rs 0 _ _ _ hp m hm
+      simp [CallArgErr.samePos, errsAt, hret, h1, h2, CallArgErr.err, h3]
+    | withReturn t a as o os' hret ho hp =>
+      cases ho with
+      | fits r _ =>
+        simp only [errs] at hm
+        obtain ⟨j, e, p, a', rfl, h1, h2, h3⟩ := paramOutcomes_errs rs 0 _ _ _ hp m hm
+        simp [CallArgErr.samePos, errsAt, hret, h1, h2, CallArgErr.err, h3]
+      | fails e he =>
+        simp only [errs, List.mem_cons] at hm
+        rcases hm with rfl | hm
+        · have := resolveReturn_error_mem rs t a e ((resolveReturn_error_iff rs t a e).mpr he)
+          simp [CallArgErr.samePos, errsAt, hret, CallArgErr.err, this]
+        · obtain ⟨j, e', p, a', rfl, h1, h2, h3⟩ := paramOutcomes_errs rs 0 _ _ _ hp m hm
+          simp [CallArgErr.samePos, errsAt, hret, h1, h2, CallArgErr.err, h3]
 end QV.C31
